@@ -84,6 +84,23 @@ ReqOf(j) ==
     THEN [op |-> IF Flag("D_UNSUBLS_ASYNC") THEN "unsub" ELSE "unsubls", tid |-> j.tid, c |-> j.c]
   ELSE j
 
+\* Whether the root has a child "$SYS" depends on the server-maintained keys below it (version, uptime ...:
+\* environment, not modelled; present unless a wildcard delete just removed them [D_SYS_WILDCARD] and until the
+\* next uptime tick): listings of the root are compared without that entry.
+NoSysRoot(r, rp) ==
+  IF rp.t = "list" /\ ((r.op = "ls" /\ r.parent = <<>>) \/ (r.op = "pls" /\ r.pat = <<>>))
+    THEN [rp EXCEPT !.list = @ \ {"$SYS"}] ELSE rp
+
+\* HTTP status of an error code (REST API)
+HttpStatus(code) ==
+  CASE code \in {E_WILD, E_MULTI, 2, E_NOTIMPL, E_NOTLOCKED, E_EMPTY} -> 400
+    [] code \in {E_NOTSUB, E_NOPUB, 13} -> 422
+    [] code \in {E_LOCKED, E_CAS, E_CASVER} -> 409
+    [] code = E_RO -> 405
+    [] code = E_NOVAL -> 404
+    [] code = E_UNAUTH -> 403
+    [] OTHER -> 500
+
 IdStr(id) == id[1] \o ":" \o ToString(id[2])
 Stream(id) == IF IdStr(id) \in DOMAIN Sc.streams THEN Sc.streams[IdStr(id)] ELSE <<>>
 Exact(id) == \E i \in DOMAIN Sc.exact : Sc.exact[i] = IdStr(id)
@@ -230,6 +247,25 @@ StepSess(s) ==
                ELSE /\ CoreStep([op |-> "disconnect", c |-> ClientOf(s)])
                     /\ ss' = [ss EXCEPT ![ClientOf(s)].open = FALSE]
           /\ UNCHANGED acq
+        ELSE IF Has(j, "rest") THEN
+          \* a request of the REST API (server/axum/mod.rs): an anonymous client (a fresh uuid per request, never
+          \* connected), the token - if any - travels with every request (axum/auth.rs bearer_auth), the handler
+          \* checks the same privilege and pattern as the socket protocol and calls the core; errors become HTTP
+          \* status codes (worterbuch-common error.rs: From<WorterbuchError> for (StatusCode, String))
+          LET r  == [ReqOf(j) EXCEPT !.c = "~rest"]
+              cl == IF Has(j, "kind") THEN ClaimsOf(j) ELSE NoAuth
+          IN
+          /\ UNCHANGED <<ss, acq>>
+          /\ IF AuthRequired /\ ~cl.ok
+               THEN /\ UNCHANGED <<S, R, out, exp, act, cons, outc>>
+                    /\ j.rep.t = "herr" /\ j.rep.status = (IF Has(j, "kind") THEN 403 ELSE 401)
+             ELSE IF AuthRequired /\ ~Granted(cl, r)
+               THEN /\ UNCHANGED <<S, R, out, exp, act, cons, outc>>
+                    /\ j.rep.t = "herr" /\ j.rep.status = 403
+             ELSE /\ CoreStep(r)
+                  /\ IF out'.rep.t = "err"
+                       THEN j.rep.t = "herr" /\ j.rep.status = HttpStatus(out'.rep.code)
+                       ELSE NoSysRoot(r, RepOf(j.rep)) = NoSysRoot(r, out'.rep)
         ELSE
           LET c  == ClientOf(s)
               r  == ReqOf(j)
@@ -252,7 +288,7 @@ StepSess(s) ==
                     IF (r.op = "acquire" /\ o.rep.t = "ok") \/ j.rep.t = "async"
                       THEN TRUE      \* the confirmation comes when the lock is granted: checked at the end;
                                      \* fire-and-forget calls have no answer to compare
-                      ELSE RepOf(j.rep) = o.rep /\ (Has(j.rep, "m") => j.rep.m = KindOf(r, o.rep))
+                      ELSE NoSysRoot(r, RepOf(j.rep)) = NoSysRoot(r, o.rep) /\ (Has(j.rep, "m") => j.rep.m = KindOf(r, o.rep))
           /\ DeliverOK(S, a.res.s, o) /\ cons' = NewCons(S, a.res.s, o)
           /\ acq' = IF isCore /\ r.op = "acquire" /\ ~HasWildcard(r.key) THEN ((R.nacq + 1) :> <<s, pos[s]>>) @@ acq ELSE acq
           /\ outc' = NewOutc(o)
